@@ -9,7 +9,17 @@ def run_shard(binary, wd, seed, seqs, nops, mode, extra=()):
     p = subprocess.run([binary, '-seed', str(seed), '-seqs', str(seqs), '-ops', str(nops), '-mode', mode,
                         '-ops-out', ops, '-impl-out', impl, *extra], timeout=3600)
     if p.returncode not in (0, 3):     # 3 = watchdog: an op never returned ("hang" is the last reply line)
-        raise RuntimeError('lbdiff exit %d' % p.returncode)
+        # the process died inside an op (a Go fatal error - stack overflow, concurrent map access, unrecoverable fault - cannot be
+        # recovered by the harness): the op line is written and flushed before the op runs, the reply is missing
+        # re-run the same shard with every line written through
+        subprocess.run([binary, '-seed', str(seed), '-seqs', str(seqs), '-ops', str(nops), '-mode', mode, '-ops-out', ops, '-impl-out', impl, *extra],
+                       timeout=3600, env=dict(os.environ, VERIF_LB_FLUSH='1'), stderr=subprocess.DEVNULL)
+        ol, il = read(ops), read(impl)
+        if len(ol) == len(il) + 1 and len(il) > 0:
+            open(ops, 'w').write('\n'.join(ol[:len(il) + 1]) + '\n')
+            open(impl, 'w').write('\n'.join(il + ['crash']) + '\n')
+        else:
+            raise RuntimeError('lbdiff exit %d' % p.returncode)
     with open(ops) as i, open(model, 'w') as o:
         subprocess.run([common.DRIVER, 'lb'], stdin=i, stdout=o, check=True, timeout=3600)
     with open(spec, 'w') as o:
@@ -49,8 +59,8 @@ def analyse(wd, mode):
         if sp.startswith('X'): res['out_contract'] += 1
         elif 'OK' in sp or sp == 'new': res['in_contract'] += 1
         kind = None
-        if impl[i] == 'hang':
-            kind = 'impl-violates-spec'
+        if impl[i] == 'hang' or (impl[i] == 'crash' and mode == 'valid'):
+            kind = 'impl-violates-spec'   # the call never returned / killed the process, inside the contract
         elif 'IMPL-SPEC-FAIL' in sp:
             kind = 'impl-violates-spec'
         elif 'MODEL-SPEC-FAIL' in sp or 'MODEL-PANIC-IN-CONTRACT' in sp:
